@@ -101,6 +101,35 @@ where
                 }
                 fs
             });
+            // a diff with MORE THAN ONE entry per field: diff(a, b) followed by diff(b, f), applied to a through the four
+            // entry points (C06 quantifies over every entry list of the type, not only over single diffs)
+            let cat: Option<Vec<T::Diff>> = guarded(|| {
+                let mut c = av.diff(&bv);
+                c.extend(bv.diff(&fv));
+                c
+            });
+            let (cat_apply, cat_ref, cat_mut, cat_single) = match cat {
+                None => (None, None, None, None),
+                Some(c) => {
+                    let (c1, c2, c3, c4) = (c.clone(), c.clone(), c.clone(), c);
+                    let x1 = av.clone();
+                    let r1 = guarded(move || x1.apply(c1));
+                    let r2 = guarded(|| av.apply_ref(c2));
+                    let mut x3 = av.clone();
+                    let r3 = guarded(move || {
+                        x3.apply_mut(c3);
+                        x3
+                    });
+                    let mut x4 = av.clone();
+                    let r4 = guarded(move || {
+                        for e in c4 {
+                            x4.apply_single(e);
+                        }
+                        x4
+                    });
+                    (r1, r2, r3, r4)
+                }
+            };
             tag(
                 "ok",
                 vec![
@@ -116,6 +145,10 @@ where
                     tag("fapplyref", vec![res(fapplyref)]),
                     tag("fapplymut", vec![res(fapplymut)]),
                     tag("fsingle", vec![res(fsingle)]),
+                    tag("cat", vec![res(cat_apply)]),
+                    tag("catref", vec![res(cat_ref)]),
+                    tag("catmut", vec![res(cat_mut)]),
+                    tag("catsingle", vec![res(cat_single)]),
                     tag("pure", vec![a(if pure_diff && pure_diff_ref && pure_apply_ref { "true" } else { "false" })]),
                 ],
             )
